@@ -698,3 +698,57 @@ def _push_str(m, st, callee, args, t):
     if h is None:
         return None
     return h(m, st, args[0], _content(m, st, args[1]))
+
+
+@model("core::char::methods::<impl char>::is_ascii")
+def _is_ascii(m, st, callee, args, t):
+    c = deref(m, st, args[0])
+    if isinstance(c, (I, Sym)) and not (isinstance(c, Sym) and isinstance(c.name, tuple) and c.name and c.name[0] in ("ch", "popped")):
+        return boolean(compare(st, "Le", c, I(0x7F, "char"), m.world))
+    return None
+
+
+@model("<core::iter::adapters::skip::Skip<I> as core::iter::traits::iterator::Iterator>::next")
+def _skip_next(m, st, callee, args, t):
+    h = getattr(m.world, "skip_next", None)
+    if h is None:
+        return None
+    return h(m, st, args[0])
+
+
+# ------------------------------------------------------------------------------- pattern models
+import re as _re
+
+PATTERN_MODELS = []
+
+
+def _string_cmp(neg):
+    def f(m, st, callee, args, t):
+        a = deref_all(m, st, args[0])
+        b = deref_all(m, st, args[1])
+        if isinstance(a, Opq) and a.kind == "buf":
+            a = m.world.buf_content(st, a)
+        if isinstance(b, Opq) and b.kind == "buf":
+            b = m.world.buf_content(st, b)
+        if isinstance(a, Str) and isinstance(b, Str):
+            r = m.world.str_eq(st, a, b)
+            return boolean((not r) if neg else r)
+        return None
+
+    return f
+
+
+_STRTY = r"(alloc::string::String|str|&'?[a-z_]* ?str|alloc::borrow::Cow<'[a-z_]+, str>)"
+PATTERN_MODELS.append((_re.compile(r"^<%s as core::cmp::PartialEq(<%s>)?>::eq$" % (_STRTY, _STRTY)), _string_cmp(False)))
+PATTERN_MODELS.append((_re.compile(r"^<%s as core::cmp::PartialEq(<%s>)?>::ne$" % (_STRTY, _STRTY)), _string_cmp(True)))
+PATTERN_MODELS.append((_re.compile(r"^alloc::string::<impl core::cmp::PartialEq<.*> for .*>::eq$"), _string_cmp(False)))
+PATTERN_MODELS.append((_re.compile(r"^alloc::string::<impl core::cmp::PartialEq<.*> for .*>::ne$"), _string_cmp(True)))
+PATTERN_MODELS.append((_re.compile(r"^core::str::traits::<impl core::cmp::PartialEq for str>::eq$"), _string_cmp(False)))
+PATTERN_MODELS.append((_re.compile(r"^core::str::traits::<impl core::cmp::PartialEq for str>::ne$"), _string_cmp(True)))
+
+
+def pattern_model(path):
+    for rx, h in PATTERN_MODELS:
+        if rx.match(path):
+            return h
+    return None
